@@ -270,6 +270,45 @@ CLAIMED = {
         "every generated spectrum). Standard DLF (pts_per_dec = 0) is outside the property's "
         "quantifier (2-D frequency array).",
    technique='Lean 4 order-theoretic case analysis + list lemmas over a generic linear order; attribute / recorded-call correspondence'),
+ 'C07': dict(
+   text="Proof (Lean 4 + Mathlib, matrices over C with arbitrary finite index types): for the "
+        "system A(sigma) = A0 + diag(c G sigma), e = A^-1 s, d = P e, misfit 1/2 sum w |d - obs|^2 "
+        "(weight 0 for missing data): resolvent identity, expansion of the misfit, and "
+        "gradient_is_derivative: phi(sigma + t v) - phi(sigma) = t <g, v> + t^2 rho(t) with g the "
+        "adjoint pipeline applied to the weighted residual and rho written out (regular at 0) - so "
+        "central differences converge at second order to <g, v>; given only a symmetric inverse "
+        "system matrix (C02). Glue (any field): distributing edge values to cells "
+        "(interp_edges_to_vol_averages) is the transpose of the cell -> edge averaging; the "
+        "anisotropy collection of the raw gradient is the transpose of the stacking used by jvec "
+        "and has the case's number of components. Tie to code: interp_edges_to_vol_averages "
+        "source on exact rationals vs Grad.toVol; on real simulations (stretched grids, 6 mappings, "
+        "4 cases, mixed / relative receivers, missing data, scalar / array noise, explicit std): "
+        "weights, residual, misfit; adjoint source field = P^T conj(w r) by pairing through "
+        "get_receiver; gradient = model pipeline applied to the stored forward and back-propagated "
+        "fields; central differences at two steps (observed order 2.0).",
+   design='§4 C07',
+   note=TB % 'c07' + "Modelled not verified: the solves (exact in the theorem; 1e-11 in the monitors, "
+        "non-converged worlds skipped and counted), symmetry of A and P / point-source transposes "
+        "(proved in C02 / C09, hypotheses here). Laplace-domain gradients are not supported by "
+        "the code (dtype error) and outside the property.",
+   technique='Lean 4 / Mathlib matrix algebra over C (resolvent identity, adjoint pairing) + sum-swap lemmas for the glue; exact, pipeline and finite-difference correspondence'),
+ 'C08': dict(
+   text="Proof (Lean 4 + Mathlib): jtvec_adjoint - Re<w, J v> = <J^T w, v> for every real model "
+        "vector and complex data vector, any receiver matrix, forward field and averaging matrix, "
+        "given a symmetric inverse system matrix (inv_symm: the inverse of a symmetric matrix is "
+        "symmetric); jvec_comp_grid / jtvec_comp_grid - with the vector volume-averaged to a "
+        "computational grid (V) and the gradient brought back with V^T the pair is still exactly "
+        "adjoint (every gridding mode); jvec_is_derivative - d(sigma + t v) - d(sigma) = t J v + "
+        "t^2 (remainder written out). Tie to code: the source field jvec hands to the solver vs "
+        "-s mu0 (cell -> edge average of the chain-scaled, case-stacked vector) e (checks "
+        "discretize's edge inner-product derivative), data slots, jtvec(w r) = gradient, repeated "
+        "calls; adjointness on the real code for gridding same / single / frequency / source / "
+        "both (computational grids with the model's cell count but other nodes), in memory and "
+        "file based, errors ~1e-12; central differences of the data vs J v.",
+   design='§4 C08',
+   note=TB % 'c08' + "Modelled not verified: as C07; volume averaging and "
+        "discretize.volume_average(...).T as mutual transposes (C15).",
+   technique='Lean 4 / Mathlib matrix algebra over C; recorded-call and adjointness correspondence'),
  'C02': dict(
    text="Proof (Lean 4, over an arbitrary field K, all grid sizes/widths/coefficients/fields): the "
         "model Emg.amat of core.amat_x equals on every interior edge the assembled operator "
